@@ -95,19 +95,19 @@ class Style:
 # (label, [spellings...], expected fields)
 TYPE_SPECS = [
     ("integer", ["integer"], dict(vartype="integer")),
-    ("integer4", ["integer(4)", "integer(kind=4)", "integer*4", "integer( kind = 4 )"], dict(vartype="integer", varkind="4")),
+    ("integer4", ["integer(4)", "integer(kind=4)", "integer*4", "integer( kind = 4 )", "integer * 4"], dict(vartype="integer", varkind="4")),
     ("real", ["real"], dict(vartype="real")),
     ("realdp", ["real(dp)", "real(kind=dp)", "real( dp )"], dict(vartype="real", varkind="dp")),
-    ("real8", ["real(8)", "real*8", "real(kind=8)"], dict(vartype="real", varkind="8")),
+    ("real8", ["real(8)", "real*8", "real(kind=8)", "real * 8", "real *8"], dict(vartype="real", varkind="8")),
     ("double", ["double precision", "doubleprecision", "double  precision"], dict(vartype="double precision")),
     ("complex8", ["complex(8)", "complex(kind=8)"], dict(vartype="complex", varkind="8")),
     ("dcomplex", ["double complex", "doublecomplex"], dict(vartype="double complex")),
     ("logical", ["logical"], dict(vartype="logical")),
     ("logical1", ["logical(1)", "logical(kind=1)", "logical*1"], dict(vartype="logical", varkind="1")),
     ("char", ["character"], dict(vartype="character", strlen="1")),
-    ("char10", ["character(10)", "character(len=10)", "character*10", "character*(10)", "character( len = 10 )"],
+    ("char10", ["character(10)", "character(len=10)", "character*10", "character*(10)", "character( len = 10 )", "character * 10", "character * (10)"],
      dict(vartype="character", strlen="10")),
-    ("charstar", ["character(*)", "character(len=*)", "character*(*)"], dict(vartype="character", strlen="*")),
+    ("charstar", ["character(*)", "character(len=*)", "character*(*)", "character * (*)"], dict(vartype="character", strlen="*")),
     ("charcolon", ["character(:)", "character(len=:)"], dict(vartype="character", strlen=":")),
     ("charlenkind", ["character(len=10,kind=ck)", "character(10,ck)", "character(kind=ck,len=10)", "character(10,kind=ck)",
                      "character(len=10, kind=ck)"], dict(vartype="character", strlen="10", varkind="ck")),
